@@ -129,7 +129,121 @@ def pairwise_part(run, scratch, cfg, systems_per_pair):
                 if nbest == 1 and g1 != g2:
                     run.fail(f"pairwise:{mode}:hirschberg-rows-differ:{opt_ends}", {"s1": a, "s2": b, "S": sn, "d": d, "e": e, "full": results["full-dp"], "hirschberg": results["hirschberg"]}, what="unique optimum but linear-space and full DP return different rows")
     run.sample({"pair": list(groups)[len(groups) // 2], "n_paths": len(groups[list(groups)[len(groups) // 2]])})
+    _PATHS.update(groups)
     return len(groups), ncalls, sum(len(v) for v in groups.values())
+
+
+_PATHS = {}
+
+
+def calls_part(run, scratch, cfg):
+    """AlignCalls.tla: histories of alignment calls on ONE score-table object that is edited in place between calls."""
+    from cogent3 import make_seq
+    from cogent3.align.align import global_pairwise, local_pairwise, make_dna_scoring_dict
+
+    emit = scratch / "aligncalls.ndjson"
+    res = run_tlc("AlignCalls", cfg, scratch, workers=4, env={"EMIT_FILE": emit}, timeout=900)
+    run.add_tlc(res)
+    contents = {
+        1: make_dna_scoring_dict(10, -1, -8),
+        2: make_dna_scoring_dict(1, -1, -1),
+        3: {(a, b): (2 if a == b else (0 if {a, b} == {"A", "C"} else -3)) for a in "ACGT" for b in "ACGT"},
+    }
+    gapsets = {1: (10, 2), 2: (2, 1)}
+    W = {(c, g): weights(contents[c], *gapsets[g]) for c in contents for g in gapsets}
+
+    def table(key):
+        recs = _PATHS[key]
+        byrows = {("".join(r["row1"]), "".join(r["row2"])): r for r in recs}
+        sc = {}
+        for c in contents:
+            for g in gapsets:
+                lnT, lnpi0, lnn = W[(c, g)]
+                sc[(c, g)] = {k: path_score(r, contents[c], lnT, lnpi0, lnn) for k, r in byrows.items()}
+        return byrows, sc
+
+    # sequence pairs whose optimum depends on the model (otherwise a stale model is invisible)
+    chosen = {"global": [], "local": []}
+    for key in sorted(_PATHS, key=lambda k: (-len(k[0]) - len(k[1]), k)):
+        a, b, mode = key
+        if len(chosen[mode]) >= 4:
+            continue
+        byrows, sc = table(key)
+        optima = {m: frozenset(k for k, v in s.items() if abs(v - max(s.values())) <= TOL) for m, s in sc.items()}
+        if len(set(optima.values())) >= 2:
+            chosen[mode].append((key, byrows, sc))
+    if not chosen["global"] or not chosen["local"]:
+        raise RuntimeError("vacuous: no sequence pair whose optimal alignment depends on the scoring model")
+    seen = set()
+    ncalls = 0
+    for rec in read_emitted(emit):
+        hk = json.dumps([rec["hist"], rec["mode"], rec["model"], rec["gaps"]])
+        if hk in seen:
+            continue
+        seen.add(hk)
+        # the spec's Init is nondeterministic; the initial model is the content before the first edit. Reconstruct by
+        # walking forward is impossible without it, so walk backward: an "edit c" step means the content BEFORE it
+        # is unknown-but-different; the harness fixes it as the smallest id different from c (any choice is a
+        # behaviour of the spec)
+        seq = []
+        c, g = rec["model"], rec["gaps"]
+        for step in reversed(rec["hist"]):
+            if step[0] == "edit":
+                seq.append(("edit", c)); c = min(x for x in contents if x != c)
+            elif step[0] == "regap":
+                seq.append(("regap", g)); g = min(x for x in gapsets if x != g)
+            else:
+                seq.append(("align", step[1]))
+        seq.reverse()
+        init_c, init_g = c, g
+        for key, byrows, sc in chosen[rec["mode"]]:
+            a, b, mode = key
+            s1 = make_seq(a, name="s1", moltype="dna")
+            s2 = make_seq(b, name="s2", moltype="dna")
+            S = dict(contents[init_c])  # ONE object for the whole history
+            c, g = init_c, init_g
+            for kind, arg in seq + [("align", rec["mode"])]:
+                if kind == "edit":
+                    for k2, v2 in contents[arg].items():
+                        S[k2] = v2  # edited in place
+                    c = arg
+                    continue
+                if kind == "regap":
+                    g = arg
+                    continue
+                fn = global_pairwise if arg == "global" else local_pairwise
+                if arg != mode:
+                    # a call of the other mode in the history: made on the same object with the same sequences
+                    try:
+                        fn(s1, s2, S, *gapsets[g], return_score=True)
+                    except Exception:
+                        pass
+                    continue
+                d, e = gapsets[g]
+                ncalls += 1
+                hist_kinds = ">".join(k for k, _ in seq) or "nothing"
+                case = {"s1": a, "s2": b, "mode": mode, "history": seq, "model_now": c, "gaps_now": [d, e]}
+                try:
+                    aln, score = fn(s1, s2, S, d, e, return_score=True)
+                except Exception as ex:
+                    run.fail(f"calls:{mode}:after={hist_kinds}:raised", dict(case, exception=repr(ex)), what="aligner raised")
+                    break
+                rows = aln.to_dict()
+                got = (rows["s1"], rows["s2"])
+                scores = sc[(c, g)]
+                best = max(scores.values())
+                case.update(returned=got, reported_score=score, best_path_score=best)
+                if got not in byrows:
+                    run.fail(f"calls:{mode}:after={hist_kinds}:rows-not-a-path", case, what="returned rows are not an alignment path of the inputs")
+                    break
+                if abs(scores[got] - score) > TOL * max(1.0, abs(score)):
+                    case["score_of_returned_path_under_current_model"] = scores[got]
+                    run.fail(f"calls:{mode}:after={hist_kinds}:reported-score-not-for-current-model", case, what="reported score is not the score of the returned path under the model as it is at the time of the call")
+                    break
+                if best > score + TOL * max(1.0, abs(score)):
+                    run.fail(f"calls:{mode}:after={hist_kinds}:not-optimal-for-current-model", case, what="the returned alignment is not optimal for the model as it is at the time of the call")
+                    break
+    return len(seen), ncalls
 
 
 def layout_rows(layout, ref, seqchars):
@@ -288,18 +402,21 @@ def check(run: Run):
     quick = run.tier == "quick"
     with Scratch("C18") as scratch:
         npairs, ncalls, npaths = pairwise_part(run, scratch, "MC_PairAlign_quick.cfg" if quick else "MC_PairAlign_thorough.cfg", 3 if quick else 4)
+        nhist, nhcalls = calls_part(run, scratch, "MC_AlignCalls_quick.cfg" if quick else "MC_AlignCalls_thorough.cfg")
         nref = refmerge_part(run, scratch, "MC_RefMerge_quick.cfg" if quick else "MC_RefMerge_thorough.cfg")
         nprog = progressive_part(run, run.seed)
-    run.cov["traces_validated_against_impl"] = ncalls + nref + nprog
-    run.cov["evaluations"] = ncalls + nref + nprog
+    run.cov["traces_validated_against_impl"] = ncalls + nref + nprog + nhcalls
+    run.cov["evaluations"] = ncalls + nref + nprog + nhcalls
     run.cov["distinct_nontrivial"] = npairs + nref
     run.cov["rule"] = (
         "pairwise: every (sequence pair, global|local) over the bounded alphabet/lengths x seeded scoring systems (3 matrices x 4 gap "
         "penalties) x {full DP, forced Hirschberg}; optimality is judged against ALL paths TLC enumerated for that pair; "
+        "call histories (AlignCalls.tla): every history of <= 3/4 align / edit-in-place / regap steps on ONE score-table object, on sequence pairs whose optimum depends on the model; "
         "refmerge: every set of pairwise layouts within bounds; progressive: structural validation on seeded 4-sequence sets"
     )
     run.note("pairwise", {"pair_mode_groups": npairs, "aligner_calls": ncalls, "paths_enumerated": npaths})
     run.note("refmerge_cases", nref)
+    run.note("align_call_histories", {"histories": nhist, "aligner_calls": nhcalls})
     run.assumptions += [
         "path scores (ln of transition / start probabilities, dot products, max) are evaluated in float in the harness from TLC's sufficient statistics",
         "the transition matrix and start probabilities are taken from cogent3.align.indel_model.classic_gap_scores (the aligner's own model)",
